@@ -73,6 +73,12 @@ def run(ctx):
              and n.func.attr in ('splitlines', 'split') and txt(n.func.value) == 'text']
     ctx.ob('T17', ind.fq, 'indent() splits lines with iter_splitlines(text) only', bool(calls) and not other and
            all(txt(c.args[0]) == 'text' for c in calls if c.args), loc=ind.loc)
+    wi_, ipaths = paths_of(prog, ind)
+    rets = [p for p in ipaths if p.kind == 'return']
+    through = all(any(o.kind == 'call' and call_name(o.val) == 'iter_splitlines' for o in p.ops) for p in rets)
+    ctx.ob('T17', ind.fq, 'every result of indent() is built from iter_splitlines(text) (no input short-cuts the line splitting)',
+           bool(rets) and through, loc=ind.loc,
+           path=next((p.describe() for p in rets if not any(o.kind == 'call' and call_name(o.val) == 'iter_splitlines' for o in p.ops)), None))
     # JSONLIterator.next
     nx = prog.func('jsonutils.JSONLIterator.next')
     ci = prog.cls('jsonutils.JSONLIterator')
